@@ -1410,12 +1410,12 @@ func (k *Kad) EachPeerRev(f model.EachPeerFunc, filter topology.Filter) error {
 func (k *Kad) Reachable(addr boson.Address, status p2p.ReachabilityStatus) {
 	k.collector.Record(addr, im.PeerReachability(status))
 	k.logger.Tracef("kademlia: reachability of peer %s is %s", addr.String(), status.String())
-	if status == p2p.ReachabilityStatusPublic {
-		k.depthMu.Lock()
-		k.depth = recalcDepth(k.connectedPeers, k.radius, k.peerFilter)
-		k.depthMu.Unlock()
-		k.notifyManageLoop()
-	}
+	// the depth counts reachable peers only: a change in either direction
+	// (a peer becoming reachable or ceasing to be) has to be reflected
+	k.depthMu.Lock()
+	k.depth = recalcDepth(k.connectedPeers, k.radius, k.peerFilter)
+	k.depthMu.Unlock()
+	k.notifyManageLoop()
 }
 
 // UpdateReachability updates node reachability status.
